@@ -121,4 +121,98 @@ example :
     (filterTxs (fun _ => false) validate apply 10 ⟨0, 0, 0, 0⟩ [3, 7, 9, 4, 5, 6]).1 = [3, 4, 5] := by
   decide
 
+/-! ### side-effecting validation: the proposer's header state is the validator's state -/
+
+theorem filterD_length_le (skip : Tx → Bool) (validateD : S → Tx → Bool × S) (applyD : S → Tx → Option (Applied S) × S)
+    (cap : Nat) (a : Acc S) (txs : List Tx) : (filterTxsD skip validateD applyD cap a txs).1.length ≤ txs.length := by
+  induction txs generalizing a with
+  | nil => simp [filterTxsD]
+  | cons tx rest ih =>
+    unfold filterTxsD
+    split
+    · exact Nat.le_succ_of_le (ih a)
+    · simp only
+      split
+      · exact Nat.le_succ_of_le (ih _)
+      · split
+        · exact Nat.le_succ_of_le (ih _)
+        · split
+          · simp
+          · simp; exact ih _
+
+/-- when nothing was dropped, the building path itself is a run of the strict path: same list, same final state and
+totals (the traces validation leaves are the same on both sides because the same calls were made) -/
+theorem filterD_all_kept (skip : Tx → Bool) (validateD : S → Tx → Bool × S) (applyD : S → Tx → Option (Applied S) × S)
+    (cap : Nat) (a : Acc S) (txs : List Tx) (hg : a.gas ≤ cap)
+    (hall : (filterTxsD skip validateD applyD cap a txs).1.length = txs.length) :
+    (filterTxsD skip validateD applyD cap a txs).1 = txs ∧
+    processTxsD validateD applyD cap a false txs = some (filterTxsD skip validateD applyD cap a txs).2 := by
+  induction txs generalizing a with
+  | nil => simp [filterTxsD, processTxsD]
+  | cons tx rest ih =>
+    unfold filterTxsD at hall ⊢
+    split at hall
+    · have := filterD_length_le skip validateD applyD cap a rest; simp at hall; omega
+    · rename_i hs
+      simp only [hs] at ⊢
+      simp only at hall ⊢
+      split at hall
+      · have := filterD_length_le skip validateD applyD cap { a with st := (validateD a.st tx).2 } rest
+        simp at hall; omega
+      · rename_i hv
+        split at hall
+        · rename_i s2 hap
+          have := filterD_length_le skip validateD applyD cap { a with st := s2 } rest
+          simp at hall; omega
+        · rename_i r s2 hap
+          split at hall
+          · rename_i hgt
+            -- the cap-crossing transaction ends the list: everything was kept only if nothing follows
+            have hrest : rest = [] := by
+              cases rest with
+              | nil => rfl
+              | cons _ _ => simp at hall
+            subst hrest
+            simp at hv
+            simp [hv, hap, hgt, processTxsD]
+          · rename_i hle
+            have hle' : (({ a with st := (validateD a.st tx).2 } : Acc S).add r).gas ≤ cap := by omega
+            have hlen : (filterTxsD skip validateD applyD cap (({ a with st := (validateD a.st tx).2 } : Acc S).add r) rest).1.length = rest.length := by
+              simp at hall; exact hall
+            obtain ⟨h1, h2⟩ := ih _ hle' hlen
+            simp at hv
+            simp [hv, hap, hle, h1, h2, processTxsD]
+
+/-- **propose_accepted**: whatever traces refused candidates leave on the building state, the block `ProposeBlock`
+emits — its kept list together with the state and totals its header is derived from — is exactly what the strict path
+computes from a clean state for that list. -/
+theorem propose_accepted (skip : Tx → Bool) (validateD : S → Tx → Bool × S) (applyD : S → Tx → Option (Applied S) × S)
+    (cap : Nat) (clean : Acc S) (txs : List Tx) (hg : clean.gas ≤ cap) :
+    processTxsD validateD applyD cap clean false (proposeD skip validateD applyD cap clean txs).1
+      = some (proposeD skip validateD applyD cap clean txs).2 := by
+  unfold proposeD
+  simp only
+  split
+  · split
+    · rename_i a h; simpa using h
+    · simp [processTxsD]
+  · rename_i hlt
+    have hlen := filterD_length_le skip validateD applyD cap clean txs
+    have heq : (filterTxsD skip validateD applyD cap clean txs).1.length = txs.length := by omega
+    obtain ⟨h1, h2⟩ := filterD_all_kept skip validateD applyD cap clean txs hg heq
+    rw [h1]; exact h2
+
+/-- **F18 witness**: with the code as found (header derived from the building state) one refused candidate whose
+validation leaves a trace makes the proposer's state differ from what every validator computes -/
+theorem propose_as_found_rejected :
+    ∃ (validateD : Nat → Nat → Bool × Nat) (applyD : Nat → Nat → Option (Applied Nat) × Nat) (txs : List Nat),
+      processTxsD validateD applyD 100 ⟨0, 0, 0, 0⟩ false
+          (proposeDAsFound (fun _ => false) validateD applyD 100 ⟨0, 0, 0, 0⟩ txs).1
+        ≠ some (proposeDAsFound (fun _ => false) validateD applyD 100 ⟨0, 0, 0, 0⟩ txs).2 :=
+  ⟨fun s tx => if tx = 7 then (false, s + 1000) else (true, s), fun s tx => (some (s + tx, 1, 0, 1), s), [7, 3], by decide⟩
+
+example :
+    (proposeD (fun _ => false) (fun (s : Nat) (tx : Nat) => if tx = 7 then (false, s + 1000) else (true, s))
+      (fun s tx => (some (s + tx, 1, 0, 1), s)) 100 ⟨0, 0, 0, 0⟩ [7, 3]) = ([3], ⟨3, 1, 0, 1⟩) := by decide
+
 end IdenaModel.BlockBuild
